@@ -85,6 +85,7 @@ func cmdCheck(args []string) int {
 	noEv := fs.Bool("no-evidence", false, "do not write evidence (corpus runs)")
 	noCorpus := fs.Bool("no-corpus", false, "skip the self-validation corpus")
 	failKeys := fs.Bool("fail-keys", false, "print FAIL-KEY lines (corpus runs)")
+	list := fs.Bool("list", false, "print every obligation (debugging)")
 	ov := overlayFlag{}
 	fs.Var(ov, "overlay", "abs-target=replacement-file (checker self-validation only)")
 	fs.Parse(args)
@@ -142,6 +143,11 @@ func cmdCheck(args []string) int {
 		r.Corpus = runCorpus(d.ID, *repo, *verif, seed)
 	}
 	r.ApplyVacuity()
+	if *list {
+		for _, o := range r.Obs {
+			fmt.Printf("OB %-9s %-4s %s @%s\n", o.Verdict, o.Rule, o.Construct, o.Pos)
+		}
+	}
 	if len(ov) > 0 || *failKeys {
 		// corpus mode: print failing keys for the parent process
 		for _, k := range r.FailKeys() {
